@@ -53,9 +53,11 @@ Fixpoint pairs {A} (l : list A) : list (A * A) :=
   match l with a :: ((b :: _) as l') => (a, b) :: pairs l' | _ => [] end.
 Definition coarse_groups (g : grid) (cpts : list Z) : list (list nat) :=
   map (fun ab => filter (fun i => in_window (fst ab) (snd ab) (pt g i)) (g_I g)) (pairs cpts).
+(* coarse intervals without any point of the reference grid are skipped (basic_classes.py:133) *)
+Definition coarse_groups_in (g : grid) (cpts : list Z) : list (list nat) :=
+  filter (fun grp => match grp with [] => false | _ => true end) (coarse_groups g cpts).
 Definition coarse (g : grid) (disc : vec) (cpts : list Z) : option rgrid :=
-  let gs := coarse_groups g cpts in
-  if existsb (fun grp => match grp with [] => true | _ => false end) gs then None else
+  let gs := coarse_groups_in g cpts in
   let I := map (fun grp => hd 0%nat grp) gs in
   Some {| rg_I := I; rg_tp := pick 0%Z (g_pts g) I;
           rg_dt := map (fun grp => qsumx (pick 0 (g_dt g) grp)) gs;
